@@ -61,6 +61,26 @@ def run(ctx):  # noqa: C901
         ctx.ob("R-RNG", g, "exposes seed", has_seed, "seed parameter" if has_seed else "the generator lost its `seed` parameter")
         if not has_seed:
             continue
+        # the seed reaches the generator untouched: 0 is a legal seed, so a truthiness test (`if seed`, `seed or ...`, `x if seed else y`)
+        # silently turns seed=0 into "no seed"; any other re-binding of `seed` is not followed (unknown)
+        truthy = []
+        for x in walk_no_nested(g.node):
+            tests = []
+            if isinstance(x, (ast.If, ast.IfExp, ast.While)):
+                tests.append(x.test)
+            if isinstance(x, ast.BoolOp):
+                tests += x.values[:-1]
+            for t_ in tests:
+                while isinstance(t_, ast.UnaryOp) and isinstance(t_.op, ast.Not):
+                    t_ = t_.operand
+                if isinstance(t_, ast.Name) and t_.id == "seed":
+                    truthy.append(x)
+        rebinds = [x for x in walk_no_nested(g.node) if isinstance(x, (ast.Assign, ast.AugAssign, ast.AnnAssign)) and any(isinstance(y, ast.Name) and y.id == "seed" and isinstance(y.ctx, ast.Store) for y in ast.walk(x))]
+        ctx.ob("R-RNG", g, "every integer seed (0 included) reaches the generator: no truthiness test, no re-binding of `seed`",
+               False if truthy else None if rebinds else True,
+               "seed is passed through untouched" if not truthy and not rebinds else
+               (f"`{unparse(truthy[0])[:70]}` tests the truth value of `seed`: seed=0 is treated as 'no seed' and draws fresh entropy on every call" if truthy else
+                f"`{unparse(rebinds[0])[:60]}` re-binds `seed` before it reaches the generator"), (truthy or rebinds or [None])[0], required=bool(truthy) or not rebinds)
         rngs = [c for c in calls_in(g.node) if m.resolve_call(g, c).key == "numpy.random.default_rng"]
         nested = [(c, cal) for c in calls_in(g.node) for cal in [m.resolve_call(g, c)] if cal.kind == "repo" and cal.func.module.name.startswith("toqito.rand.") and cal.func.param("seed") is not None]
         if not rngs and not nested:
